@@ -250,7 +250,7 @@ def r_literal_classes(ctx):
 
 REQUIRED_GUARDS = [
     # (function, substrings of the canonical path condition, outcome prefix, panic sites that rely on it)
-    ('<ast::SingleExpression as ast::AbstractSyntaxTree>::analyze', ['inner(from)=List', 'Le(get(', 'len(inner(from)@List.0))=T'], 'err:ExpressionUnexpectedType',
+    ('<ast::SingleExpression as ast::AbstractSyntaxTree>::analyze', ['inner(from)=List', 'Lt(len(inner(from)@List.0), get(', '=F'], 'err:ExpressionUnexpectedType',
      'Partition::from_slice / Value::list / StructuralValue::list assert len < bound'),
     ('<ast::SingleExpression as ast::AbstractSyntaxTree>::analyze', ['inner(from)=Array', 'Eq(as_array(ty).1, len(inner(from)@Array.0))=F'], 'err:ExpressionUnexpectedType', 'array length invariant of typed values'),
     ('<ast::CallName as ast::AbstractSyntaxTree>::analyze', ['name(from)=Fold', 'Eq(2_usize, len(params(', '=F'], 'err:FunctionNotFoldable', 'params().first()/get(1).expect("foldable function"), params()[1]'),
